@@ -173,7 +173,7 @@ func lexSpec(s string) ([]tok, error) {
 				out = append(out, tok{"int", strconv.FormatInt(v, 10)})
 			}
 			i = j
-		case c == '_' || c >= 'a' && c <= 'z' || c >= 'A' && c <= 'Z':
+		case c == '_' || c == '$' || c >= 'a' && c <= 'z' || c >= 'A' && c <= 'Z':
 			j := i
 			for j < len(s) && (s[j] == '_' || s[j] == '$' || s[j] >= 'a' && s[j] <= 'z' || s[j] >= 'A' && s[j] <= 'Z' || s[j] >= '0' && s[j] <= '9') {
 				j++
